@@ -445,12 +445,24 @@ impl Task {
                 ctx.dispatch_act(&act, false)?;
             }
             EventAction::Remove => {
+                if self.state().is_completed() {
+                    return Err(ActError::Action(format!(
+                        "task '{}:{}' is already completed",
+                        self.pid, self.id
+                    )));
+                }
                 #[cfg(feature = "verif")]
                 crate::verif::pause("update.guard");
                 self.set_state(TaskState::Removed);
                 self.next(ctx)?;
             }
             EventAction::Submit => {
+                if self.state().is_completed() {
+                    return Err(ActError::Action(format!(
+                        "task '{}:{}' is already completed",
+                        self.pid, self.id
+                    )));
+                }
                 #[cfg(feature = "verif")]
                 crate::verif::pause("update.guard");
                 self.set_state(TaskState::Submitted);
